@@ -2162,8 +2162,10 @@ class TargetRegistry:
             raise TypeError(f'expected auto_func to be callable, not: {auto_func!r}')
 
         # determine support for any previously known types
-        known_types = set(sum([list(m.keys()) for m
-                               in self._op_type_map.values()], []))
+        # (in order of first registration, not in the order of a set of type objects -- which is by
+        # address, so that the precedence among unrelated virtual types differed from run to run)
+        known_types = list(OrderedDict.fromkeys(sum([list(m.keys()) for m
+                                                     in self._op_type_map.values()], [])))
         type_map = self._op_type_map.get(op_name, OrderedDict())
         type_tree = self._op_type_tree.get(op_name, OrderedDict())
         for t in sorted(known_types, key=lambda t: t.__name__):
